@@ -42,6 +42,7 @@ type Frame struct {
 	pendingArgLocs map[int]*Loc // interior-address arguments of the call being translated
 	argLocsUsed    bool         // the callee was inlined and bound them
 	curRangeIdx  *ssa.Alloc // hidden index of the loop whose invariants are being evaluated
+	curMapRange  *ssa.Range // map range of the loop whose invariants are being evaluated (visited(k))
 	cellAlloc    map[*ssa.Alloc]bool
 	params       []Term
 	entry        *State
@@ -280,6 +281,8 @@ func (fr *Frame) storeToLoc(st *State, l *Loc, v Term) {
 func (fr *Frame) nilCheck(l *Loc, guard Term, what string) {
 	if l.kind == "field" || l.kind == "ptr" || l.kind == "structref" {
 		fr.vc.oblige("nil", "safety", what, guard, not(eq(l.ref, tZero)), "nil dereference: "+what)
+		// execution continues past a dereference only if it did not panic
+		fr.vc.assume(guard, not(eq(l.ref, tZero)))
 	}
 }
 
